@@ -191,6 +191,35 @@ func graphCase(rng *rand.Rand, shape string) *input {
 		in.Files["conf/x.cfg"] = titled("confx", "")
 		in.Files["lib/x.cfg"] = titled("libx", "")
 		in.Files["x.cfg"] = titled("rootx", "")
+	case "path-leak":
+		// The search path is per clause: after a file of ANOTHER directory D has
+		// itself included something (and has been read to its end), a later
+		// include elsewhere of a name that exists in D must not find it there.
+		switch rng.Intn(3) {
+		case 0: // -I lib0 -I lib1: common.cfg comes from lib0 although lib1/part.cfg included from lib1 before
+			in.IP = []string{"", "lib0", "lib1"}
+			in.Files["m.cfg"] = titled("m", "", "include part.cfg", "", "include common.cfg", "")
+			in.Files["lib1/part.cfg"] = titled("part", "", "include helper.cfg", "")
+			in.Files["lib1/helper.cfg"] = titled("helper", "")
+			in.Files["lib0/common.cfg"] = titled("lib0common", "")
+			in.Files["lib1/common.cfg"] = titled("lib1common", "")
+		case 1: // only.cfg exists only next to sub/part.cfg: the main file cannot include it
+			in.IP = []string{"", "lib"}
+			in.Files["m.cfg"] = titled("m", "include sub/part.cfg", "", "include only.cfg", "")
+			in.Files["sub/part.cfg"] = titled("part", "include x.cfg", "")
+			in.Files["sub/x.cfg"] = titled("x", "")
+			in.Files["sub/only.cfg"] = titled("only", "")
+		default: // ... nor can a file of a third directory
+			in.IP = []string{"", "lib"}
+			in.Files["m.cfg"] = titled("m", "include sub/part.cfg", "include other/q.cfg", "")
+			in.Files["sub/part.cfg"] = titled("part", "", "include x.cfg")
+			in.Files["sub/x.cfg"] = titled("x", "include y.cfg")
+			in.Files["sub/y.cfg"] = titled("y", "")
+			in.Files["other/q.cfg"] = titled("q", "", "include y.cfg", "")
+			if rng.Intn(2) == 0 {
+				in.Files["lib/y.cfg"] = titled("liby", "") // then it is the -I one, not sub/y.cfg
+			}
+		}
 	case "wide":
 		// many SEQUENTIAL includes at one level: the limit is on nesting, not on the number
 		n := []int{10, 12, 25}[rng.Intn(3)]
@@ -359,7 +388,7 @@ func graphCase(rng *rand.Rand, shape string) *input {
 	return in
 }
 
-var graphShapes = []string{"wide", "comb", "shadow-sibling-listed", "nonl-title", "nonl-end", "nonl-nested", "chain", "chain", "chain", "diamond", "self", "mutual", "cycle3", "directory", "directory-nested", "missing",
+var graphShapes = []string{"path-leak", "path-leak", "wide", "comb", "shadow-sibling-listed", "nonl-title", "nonl-end", "nonl-nested", "chain", "chain", "chain", "diamond", "self", "mutual", "cycle3", "directory", "directory-nested", "missing",
 	"only-I", "shadow-sibling", "shadow-order", "sibling-of-includer", "dotdot", "no-final-newline", "empty-files", "random", "random", "random", "random"}
 
 // escapesRoot says whether some include name of the file set could climb
